@@ -828,13 +828,6 @@ def couple_impl(a):
             return (len(m.time), len(m.avgR), float(m.time[-1]))
         return (len(m.seen),)
 
-    def check_list(where):
-        real = list(host.couplingModels)
-        want = [models[j] for j in order]
-        if len(real) == len(want) and all(x is y for x, y in zip(real, want)):
-            return True
-        return False
-
     def check_models(where):
         hn = host_index(host)
         for k in range(nm):
@@ -894,8 +887,8 @@ def couple_impl(a):
             snap = [state(j) for j in range(nm)]
             host.addCouplingModel(models[k]); ops.append('A %d %d' % (k, sorted(set(cls)).index(cls[k])))
             order.append(k); ever[k] = True
-            if not check_list('attach'):
-                real = list(host.couplingModels)
+            real = list(host.couplingModels)
+            if not (len(real) == len(before) + 1 and all(x is y for x, y in zip(before, real)) and real[-1] is models[k]):
                 lost = [x for x in before if not any(x is y for y in real)]
                 how = ('drops-same-class' if lost and all(type(x) is type(models[k]) for x in lost) else 'drops-other-class' if lost
                        else 'not-appended' if not (real and real[-1] is models[k]) else 'reorders')
@@ -909,8 +902,9 @@ def couple_impl(a):
             break
         n0 = host_index(host)
         if hostkind == 'standin':
-            for _ in range(rng.randint(0, 5)):
-                dt = tsc * rng.uniform(0.01, 0.08)
+            dts = [tsc * rng.uniform(0.01, 0.08) for _ in range(rng.randint(0, 5))]
+            host.setTimeInfo(float(host.pData.time[-1]), float(sum(dts)))      # what GenericModel.solve does first
+            for dt in dts:
                 host.hostStep(dt, [rng.choice(['empty', 'pop', 'pop', 'single']) for _ in range(P)])
                 ops.append('S')
                 for k in order:
